@@ -153,7 +153,44 @@ func (c *ctx) fail(b *beh, step, format string, a ...any) {
 func (c *ctx) replay(b *beh, id int) {
 	orig := symBytes(b.Orig)
 	expOut := symBytes(b.Out)
-	// --- Add, comparing the patch list after each call
+	// --- Add, comparing the patch list after each call.  Builders often pass sub-slices of one larger
+	// buffer, so besides independently allocated blobs the calls are repeated with blobs that alias a
+	// shared buffer (laid out in call order and in reverse call order): an Add must never write into
+	// memory it was not given.
+	for _, layout := range []string{"sharedForward", "sharedReverse"} {
+		total := 0
+		for _, a := range b.Adds {
+			total += len(a.Blob)
+		}
+		shared := make([]byte, total, total+16)
+		offs := make([]int, len(b.Adds))
+		pos := 0
+		order := make([]int, len(b.Adds))
+		for i := range order {
+			order[i] = i
+			if layout == "sharedReverse" {
+				order[i] = len(b.Adds) - 1 - i
+			}
+		}
+		for _, i := range order {
+			offs[i] = pos
+			copy(shared[pos:], symBytes(b.Adds[i].Blob))
+			pos += len(b.Adds[i].Blob)
+		}
+		orig0 := append([]byte(nil), shared...)
+		q := binpatch.New()
+		for i, a := range b.Adds {
+			q.Add(a.Off, a.Old, shared[offs[i]:offs[i]+len(a.Blob)])
+		}
+		if !bytes.Equal(shared, orig0) {
+			c.fail(b, "Add/"+layout, "Add modified the caller's buffer: %v -> %v", orig0, shared)
+			return
+		}
+		if len(b.PsHist) > 0 && !eq(project(q), want(b.PsHist[len(b.PsHist)-1])) {
+			c.fail(b, "Add/"+layout, "with blobs aliasing one buffer the patch list is %v, specification says %v", project(q), want(b.PsHist[len(b.PsHist)-1]))
+			return
+		}
+	}
 	p := binpatch.New()
 	for i, a := range b.Adds {
 		p.Add(a.Off, a.Old, symBytes(a.Blob))
@@ -211,6 +248,13 @@ func (c *ctx) replay(b *beh, id int) {
 		f.Close()
 		if err != nil {
 			c.fail(b, "Apply/"+mode, "Apply failed: %v", err)
+			return
+		}
+		if st, err := os.Stat(dest); err != nil || st.Size() > 1<<20 {
+			// never read a runaway (sparse multi-GiB) result into memory
+			c.fail(b, "Apply/"+mode, "output size %v (%v), specification says %d bytes", st, err, len(expOut))
+			os.Remove(in)
+			os.Remove(dest)
 			return
 		}
 		got, err := os.ReadFile(dest)
